@@ -1,4 +1,4 @@
-//go:build verif && verif_c07
+//go:build verif && (verif_c07 || verif_c11)
 
 package main
 
